@@ -14,8 +14,9 @@ def S(scen, workers, shards=1, **kw):
 
 def D(scen, workers, prefix, shards=1, **kw):
     """directed job: stall plans only for the hook windows the property is anchored in (site-name prefixes), every one of
-    the first 10 hits plus 10 sampled later hits, no random multi-stall plans"""
-    return J(scen, workers, shards, only_prefix=prefix, k=10, tk=24, random=0, trandom=0, **kw)
+    the first 10 hits plus 10 sampled later hits, and random 2-4-entry plans drawn from those windows only (two parties
+    of one primitive held at once for different times: "the later one overtakes the earlier one")"""
+    return J(scen, workers, shards, only_prefix=prefix, k=10, tk=24, random=8, trandom=32, **kw)
 
 
 def J(scen, workers=W124, shards=1, lane='plain', **kw):
